@@ -4,6 +4,9 @@ import json, os, subprocess
 V = os.path.dirname(os.path.dirname(os.path.abspath(__file__)))
 
 CLAIMS = {
+ "C05": ("MIR panic-edge enumeration with dominance/byte-budget/constant-range discharges, select! branch analysis, reasoned table with re-checked anchors; unbounded-read and recursion rules",
+         "Every panic edge (explicit, unwrap/expect, MIR Assert, panicking library API) in code reachable from any spawned task is discharged by a re-derived guard or an anchored table entry, else reported; unbounded line reads and recursion cycles are reported. Structural necessary condition of crash-freedom, not a proof about dependencies.",
+         "Trusts rustc MIR, the curated panicking-API table and dependency contracts (tokio read returns n <= buf.len(), kernel recvmsg cmsg presence).", "3/C05"),
  # id: (technique, level text, level note, design_ref)
  "C09": ("PEG extraction from MIR + table comparison with readme (ordered-choice shadowing, ladder, fold direction, constructor totality, blank coverage)",
          "Structural necessary conditions of the documented grammar, decided on the grammar extracted from the type-checked parser: level sets equal the readme table, no prefix-shadowed alternative, left folds, total/live constructor tables, blank skipper before every token. Not a proof of tree equality for all inputs.",
